@@ -295,6 +295,8 @@ Lemma dup_shares_offset_l s fd m cx s1 fd' w off s2 n :
 Proof.
   unfold k_dup. destruct (N.ltb fd_limit m); try discriminate.
   destruct (fd_get (fds s) fd) as [e|] eqn:G; try discriminate.
+  destruct (N.leb (p_limit (k_cur s)) m); try discriminate.
+  destruct (negb (can_alloc s m)); try discriminate.
   intros H; inversion H; subst s1 fd'; clear H. intros Hl.
   set (t' := fd_put (fds s) (lowest_free (fds s) m) (mkEnt (e_ofd e) cx)) in *.
   assert (Hnew : fd_get t' (lowest_free (fds s) m) = Some (mkEnt (e_ofd e) cx))
@@ -335,7 +337,7 @@ Proof. intros H. unfold k_fork. rewrite H. cbn. repeat split; reflexivity. Qed.
 Lemma fork_shares_offset_l s s1 fd w off s2 n s3 :
   k_fork s = (s1, RUnit) ->
   k_lseek s1 fd w off = (s2, ROff n) ->
-  k_exit s2 = (s3, RUnit) ->
+  k_exit s2 = (s3, RChild CExited) ->
   exists s4, k_lseek s3 fd WCur 0 = (s4, ROff n).
 Proof.
   unfold k_fork. intros H; inversion H; subst s1; clear H. intros Hl He.
@@ -356,9 +358,16 @@ Proof.
   eexists. f_equal. f_equal. lia.
 Qed.
 
-(* no system call other than fork/exit touches the waiting ancestors *)
-Lemma install_susp s o cx : k_susp (fst (install s o cx)) = k_susp s.
-Proof. reflexivity. Qed.
+(* Everything of a process except its signal state; no system call other than
+   fork/exit changes this part of a waiting ancestor (kill changes the signal
+   state of the ancestors it reaches). *)
+Definition strip (p : proc) := (p_fds p, p_cwd p, p_umask p, p_limit p, p_id p).
+
+Definition sk (s : kstate) : nat := match k_skip s with Some (_, d) => d | None => O end.
+
+Lemma install_susp' s o cx s' fd :
+  install s o cx = (s', fd) -> k_susp s' = k_susp s /\ k_skip s' = k_skip s.
+Proof. unfold install. intros H; inversion H; split; reflexivity. Qed.
 
 Ltac break_match :=
   match goal with
@@ -366,30 +375,96 @@ Ltac break_match :=
   | |- context [if ?x then _ else _] => destruct x eqn:?
   end.
 
-Lemma install_susp' s o cx s' fd : install s o cx = (s', fd) -> k_susp s' = k_susp s.
-Proof. unfold install. intros H; inversion H; reflexivity. Qed.
+(* the operations that touch neither the ancestors nor the skip marker *)
+Definition quiet (s s' : kstate) : Prop := k_susp s' = k_susp s /\ k_skip s' = k_skip s.
 
-Ltac susp_tac :=
+Lemma quiet_refl s : quiet s s.
+Proof. split; reflexivity. Qed.
+
+Ltac quiet_tac :=
   repeat break_match; cbn [fst];
   repeat match goal with
-         | H : install _ _ _ = (_, _) |- _ => apply install_susp' in H; rewrite H; clear H
+         | H : install _ _ _ = (_, _) |- _ =>
+             let A := fresh in let B := fresh in
+             apply install_susp' in H; destruct H as (A & B); unfold quiet; rewrite A, B; clear A B
          end;
-  repeat break_match; try reflexivity.
+  repeat break_match; try (apply quiet_refl); try (split; reflexivity).
 
-Lemma open_existing_susp s i a f : k_susp (fst (open_existing s i a f)) = k_susp s.
-Proof. unfold open_existing. susp_tac. Qed.
+Lemma open_existing_quiet s i a f : quiet s (fst (open_existing s i a f)).
+Proof. unfold open_existing. quiet_tac. Qed.
 
-Lemma step_susp s o :
-  o <> OFork -> o <> OExit -> k_susp (fst (step s o)) = k_susp s.
+Lemma k_open_quiet s p a f mode : quiet s (fst (k_open s p a f mode)).
 Proof.
-  intros Hf He. destruct o; try congruence; cbn [step];
+  assert (Hin : quiet s (fst (k_open_inner s p a f mode))).
+  { unfold k_open_inner. repeat break_match; cbn [fst]; try apply quiet_refl;
+      try apply open_existing_quiet.
+    all: repeat match goal with
+           | H : install _ _ _ = (_, _) |- _ =>
+               let A := fresh in let B := fresh in
+               apply install_susp' in H; destruct H as (A & B); unfold quiet; rewrite A, B
+           end; split; reflexivity. }
+  unfold k_open. destruct (can_alloc s 0); auto.
+  destruct (snd (k_open_inner s p a f mode)); apply quiet_refl.
+Qed.
+
+Lemma signal_ancestors_strip : forall l pg sig l',
+  signal_ancestors l pg sig = Some l' -> map strip l' = map strip l.
+Proof.
+  induction l as [|p l IH]; intros pg sig l' H; cbn in H.
+  - inversion H; reflexivity.
+  - destruct (signal_ancestors l pg sig) as [l''|] eqn:E; try discriminate.
+    specialize (IH _ _ _ E).
+    destruct (N.eqb (snd (p_id p)) pg).
+    + destruct (generate (p_sig p) sig); try discriminate. inversion H; subst. cbn. rewrite IH. reflexivity.
+    + inversion H; subst. cbn. rewrite IH. reflexivity.
+Qed.
+
+Lemma signal_self_props s susp' sig :
+  k_skip s = None -> map strip susp' = map strip (k_susp s) ->
+  map strip (k_susp (fst (signal_self s susp' sig))) = map strip (k_susp s) /\
+  sk (fst (signal_self s susp' sig)) = O.
+Proof.
+  intros Hn H. unfold signal_self, sk.
+  destruct (generate (p_sig (k_cur s)) sig); cbn [fst k_susp k_skip]; auto.
+  - destruct (k_susp s) eqn:E; cbn [fst k_susp k_skip]; rewrite ?E, ?Hn; auto.
+  - destruct (k_susp s) eqn:E; cbn [fst k_susp k_skip]; rewrite ?E, ?Hn; auto.
+  - rewrite Hn. auto.
+Qed.
+
+Lemma k_kill_props s tg sig :
+  k_skip s = None ->
+  map strip (k_susp (fst (k_kill s tg sig))) = map strip (k_susp s) /\
+  sk (fst (k_kill s tg sig)) = O.
+Proof.
+  intros Hn. assert (Hs : sk s = O) by (unfold sk; rewrite Hn; reflexivity).
+  unfold k_kill. destruct (negb (N.ltb sig nsig)); cbn [fst]; auto.
+  destruct tg.
+  - apply signal_self_props; auto.
+  - destruct (k_susp s) as [|p rest] eqn:E; cbn [fst]; rewrite ?E; auto.
+    destruct (generate (p_sig p) sig); cbn [fst k_susp]; rewrite ?E; auto.
+  - destruct (signal_ancestors _ _ _) eqn:E; cbn [fst]; auto.
+    apply signal_self_props; auto. eapply signal_ancestors_strip; eauto.
+  - destruct (signal_ancestors _ _ _) eqn:E; cbn [fst]; auto.
+    apply signal_self_props; auto. eapply signal_ancestors_strip; eauto.
+  - destruct (N.eqb _ _); cbn [fst]; auto.
+    destruct (signal_ancestors _ _ _) eqn:E; cbn [fst]; auto.
+    apply signal_self_props; auto. eapply signal_ancestors_strip; eauto.
+Qed.
+
+Lemma step_live_props s o :
+  o <> OFork -> o <> OExit -> k_skip s = None ->
+  map strip (k_susp (fst (step_live s o))) = map strip (k_susp s) /\
+  sk (fst (step_live s o)) = O.
+Proof.
+  intros Hf He Hn.
+  assert (Hq : forall s', quiet s s' -> map strip (k_susp s') = map strip (k_susp s) /\ sk s' = O).
+  { intros s' (A & B). rewrite A. unfold sk. rewrite B, Hn. auto. }
+  destruct o; try congruence; cbn [step_live]; try apply k_kill_props; auto; apply Hq;
+    try apply k_open_quiet;
     try (unfold k_close, k_dup, k_dup2, k_read, k_write, k_lseek, k_fstat, k_stat, k_umask,
            k_chdir, k_getcwd, k_pipe, k_readdir, k_getfd, k_setfd, k_access,
-           k_sigaction, k_getsigaction, k_raise, k_caught, k_sigmask; susp_tac; fail).
-  unfold k_open. repeat break_match; cbn [fst]; try reflexivity; try apply open_existing_susp.
-  all: repeat match goal with
-         | H : install _ _ _ = (_, _) |- _ => apply install_susp' in H; rewrite H; clear H
-         end; reflexivity.
+           k_sigaction, k_getsigaction, k_raise, k_caught, k_sigmask, k_setrlimit, k_setpgid0;
+         quiet_tac; fail).
 Qed.
 
 Lemma run_app s a b :
@@ -403,45 +478,106 @@ Proof.
     destruct (run s1 a) as [s2 r2]. destruct (run s2 b). reflexivity.
 Qed.
 
+(* properly nested fork/exit, also when a child is killed on the way: at the
+   end the stack of waiting ancestors has lost exactly the [d] innermost ones *)
 Lemma run_nested : forall ops d s,
-  nested d ops = true -> d <= length (k_susp s) ->
-  k_susp (fst (run s ops)) = skipn d (k_susp s).
+  nested d ops = true -> sk s <= d -> d - sk s <= length (k_susp s) ->
+  map strip (k_susp (fst (run s ops))) = skipn (d - sk s) (map strip (k_susp s)) /\
+  sk (fst (run s ops)) = O.
 Proof.
-  induction ops as [|o ops IH]; intros d s Hn Hd; cbn [run nested] in *.
-  - apply Nat.eqb_eq in Hn. subst. reflexivity.
+  induction ops as [|o ops IH]; intros d s Hn Hk Hd; cbn [run nested] in *.
+  - apply Nat.eqb_eq in Hn. subst. assert (sk s = O) by lia. rewrite H. cbn. auto.
   - destruct (step s o) as [s1 r] eqn:Es.
     destruct (run s1 ops) as [s2 rs] eqn:Er. cbn [fst].
     change s2 with (fst (s2, rs)). rewrite <- Er. clear Er s2 rs.
     assert (Es1 : s1 = fst (step s o)) by (rewrite Es; reflexivity). clear Es.
-    destruct o;
-      try (assert (Hs : k_susp s1 = k_susp s)
-             by (rewrite Es1; apply step_susp; congruence);
-           rewrite (IH d s1 Hn) by (rewrite Hs; auto); rewrite Hs; reflexivity).
-    + (* fork *)
-      cbn in Es1. rewrite (IH (S d) s1 Hn) by (rewrite Es1; cbn; lia).
-      rewrite Es1. reflexivity.
-    + (* exit *)
-      destruct d as [|d]; try discriminate.
-      cbn [step] in Es1. unfold k_exit in Es1.
-      destruct (k_susp s) as [|p rest] eqn:Ek; cbn in Hd; try lia.
-      cbn in Es1.
-      rewrite (IH d s1 Hn) by (rewrite Es1; cbn; lia).
-      rewrite Es1. reflexivity.
+    unfold step in Es1.
+    destruct (k_skip s) as [[sig e]|] eqn:Eskip.
+    + (* the running process has been killed *)
+      assert (Hsk : sk s = e) by (unfold sk; rewrite Eskip; reflexivity).
+      rewrite Hsk in Hk, Hd |- *.
+      destruct o;
+        try (cbn in Es1; subst s1; rewrite <- Hsk; apply IH; auto; rewrite Hsk; auto).
+      * (* fork: not executed *)
+        cbn in Es1.
+        assert (Hs1 : sk s1 = S e) by (subst s1; reflexivity).
+        assert (Hu : k_susp s1 = k_susp s) by (subst s1; reflexivity).
+        destruct (IH (S d) s1 Hn) as (A & B); try (rewrite ?Hs1, ?Hu; lia).
+        split; auto. rewrite A, Hs1, Hu. replace (S d - S e) with (d - e) by lia. reflexivity.
+      * (* exit *)
+        destruct d as [|d]; try discriminate.
+        destruct e as [|e].
+        -- destruct (k_susp s) as [|p rest] eqn:Ek; cbn in Hd; try lia.
+           cbn in Es1.
+           assert (Hs1 : sk s1 = 0) by (subst s1; reflexivity).
+           assert (Hu : k_susp s1 = rest) by (subst s1; reflexivity).
+           destruct (IH d s1 Hn) as (A & B); try (rewrite ?Hs1, ?Hu; lia).
+           split; auto. rewrite A, Hs1, Hu. cbn [map].
+           replace (S d - 0) with (S d) by lia. replace (d - 0) with d by lia. reflexivity.
+        -- cbn in Es1.
+           assert (Hs1 : sk s1 = e) by (subst s1; reflexivity).
+           assert (Hu : k_susp s1 = k_susp s) by (subst s1; reflexivity).
+           destruct (IH d s1 Hn) as (A & B); try (rewrite ?Hs1, ?Hu; lia).
+           split; auto. rewrite A, Hs1, Hu. reflexivity.
+    + (* alive *)
+      assert (Hsk : sk s = 0) by (unfold sk; rewrite Eskip; reflexivity).
+      rewrite Hsk in Hk, Hd |- *. replace (d - 0) with d in Hd |- * by lia.
+      destruct o;
+        try (match type of Es1 with _ = fst (step_live s ?o') =>
+               destruct (step_live_props s o' ltac:(congruence) ltac:(congruence) Eskip) as (A & B)
+             end;
+             rewrite <- Es1 in A, B;
+             assert (Hlen : length (k_susp s1) = length (k_susp s))
+               by (apply (f_equal (@length _)) in A; rewrite !map_length in A; exact A);
+             destruct (IH d s1 Hn) as (C & D); [lia | rewrite B, Hlen; lia |];
+             split; auto; rewrite C, B, A; replace (d - 0) with d by lia; reflexivity).
+      * (* fork *)
+        cbn in Es1.
+        assert (Hs1 : sk s1 = 0) by (subst s1; reflexivity).
+        assert (Hu : map strip (k_susp s1) = strip (k_cur s) :: map strip (k_susp s))
+          by (subst s1; reflexivity).
+        assert (Hlen : length (k_susp s1) = S (length (k_susp s))) by (subst s1; reflexivity).
+        destruct (IH (S d) s1 Hn) as (A & B); try (rewrite ?Hs1, ?Hlen; lia).
+        split; auto. rewrite A, Hs1, Hu. reflexivity.
+      * (* exit *)
+        destruct d as [|d]; try discriminate.
+        cbn [step_live] in Es1. unfold k_exit in Es1.
+        destruct (k_susp s) as [|p rest] eqn:Ek; cbn in Hd; try lia.
+        cbn in Es1.
+        assert (Hs1 : sk s1 = 0) by (subst s1; reflexivity).
+        assert (Hu : k_susp s1 = rest) by (subst s1; reflexivity).
+        destruct (IH d s1 Hn) as (A & B); try (rewrite ?Hs1, ?Hu; lia).
+        split; auto. rewrite A, Hs1, Hu. cbn [map]. replace (d - 0) with d by lia. reflexivity.
 Qed.
 
+(* Whatever the child does (including getting itself killed), the parent's
+   descriptor table, cwd, umask, limit and IDs are as before, and so are those
+   of all waiting ancestors.  (Signals the child sends reach their signal
+   state only.) *)
 Lemma subshell_isolation_l s ops :
-  nested 0 ops = true ->
-  k_cur (fst (run s (OFork :: ops ++ [OExit]))) = k_cur s /\
-  k_susp (fst (run s (OFork :: ops ++ [OExit]))) = k_susp s.
+  k_skip s = None -> nested 0 ops = true ->
+  strip (k_cur (fst (run s (OFork :: ops ++ [OExit])))) = strip (k_cur s) /\
+  map strip (k_susp (fst (run s (OFork :: ops ++ [OExit])))) = map strip (k_susp s).
 Proof.
-  intros Hn. cbn [run step]. unfold k_fork.
-  set (s1 := mkK (k_ino s) (k_ofd s) _ (k_cur s :: k_susp s)).
+  intros Hnone Hn. cbn [run]. unfold step. rewrite Hnone. cbn [step_live]. unfold k_fork.
+  set (s1 := mkK (k_ino s) (k_ofd s) _ (k_cur s :: k_susp s) None).
   rewrite run_app.
   destruct (run s1 ops) as [s2 r2] eqn:E2.
-  assert (Hs : k_susp s2 = k_cur s :: k_susp s).
-  { replace s2 with (fst (run s1 ops)) by (rewrite E2; reflexivity).
-    rewrite (run_nested ops 0 s1 Hn) by lia. reflexivity. }
-  cbn [run step]. unfold k_exit. rewrite Hs. cbn. auto.
+  destruct (run_nested ops 0 s1 Hn) as (A & B); try (unfold s1, sk; cbn; lia).
+  rewrite E2 in A, B. cbn [fst] in A, B.
+  replace (0 - sk s1) with 0 in A by lia. cbn [skipn] in A.
+  unfold s1 in A. cbn [k_susp map] in A.
+  cbn [run]. unfold step. unfold sk in B.
+  destruct (k_skip s2) as [[sig e]|] eqn:Es2.
+  - subst e. destruct (k_susp s2) as [|p rest]; [discriminate|].
+    cbn [map] in A.
+    pose proof (f_equal (hd (strip p)) A) as A1. pose proof (f_equal (@tl _) A) as A2.
+    cbn [hd tl] in A1, A2. cbn -[strip]. split; assumption.
+  - cbn [step_live]. unfold k_exit.
+    destruct (k_susp s2) as [|p rest]; [discriminate|].
+    cbn [map] in A.
+    pose proof (f_equal (hd (strip p)) A) as A1. pose proof (f_equal (@tl _) A) as A2.
+    cbn [hd tl] in A1, A2. cbn -[strip]. split; assumption.
 Qed.
 
 (* ---- bytes ---------------------------------------------------------------------------------- *)
@@ -550,10 +686,10 @@ Proof.
   rewrite Hts. reflexivity.
 Qed.
 
-Lemma excl_refuses_existing_l s p a f mode k sz pm :
+Lemma excl_refuses_existing_inner s p a f mode k sz pm :
   k_stat s p = (s, RStat k sz pm) ->
   flags_ok a f = true -> f_creat f = true -> f_excl f = true ->
-  k_open s p a f mode = (s, RErr EEXIST).
+  k_open_inner s p a f mode = (s, RErr EEXIST).
 Proof.
   intros Hst Hok Hc He.
   assert (Hex : forall i, open_existing s i a f = (s, RErr EEXIST)).
@@ -562,7 +698,7 @@ Proof.
   destruct (resolve (k_ino s) (p_cwd (k_cur s)) p) as [st| |] eqn:Er; try discriminate.
   assert (Hne : nonempty p = true).
   { unfold resolve in Er. destruct (nonempty p); auto. discriminate. }
-  unfold k_open. rewrite Hok, Hne. cbn [negb orb]. rewrite Er.
+  unfold k_open_inner. rewrite Hok, Hne. cbn [negb orb]. rewrite Er.
   destruct (rev (comps p)) as [|last rinit] eqn:Hr; auto.
   destruct (is_dot last) eqn:Hd; cbn [orb]; auto.
   destruct (is_dotdot last) eqn:Hdd; cbn [orb]; auto.
@@ -572,6 +708,31 @@ Proof.
   destruct (nth_error (k_ino s) (top st1)) as [[| perm ents |]|]; try discriminate.
   destruct (lookup ents last); try discriminate. auto.
 Qed.
+
+Lemma excl_refuses_existing_l s p a f mode k sz pm :
+  can_alloc s 0 = true ->
+  k_stat s p = (s, RStat k sz pm) ->
+  flags_ok a f = true -> f_creat f = true -> f_excl f = true ->
+  k_open s p a f mode = (s, RErr EEXIST).
+Proof.
+  intros Hc. unfold k_open. rewrite Hc. apply excl_refuses_existing_inner.
+Qed.
+
+(* a successful open is a successful open with a descriptor available *)
+Lemma k_open_inner_of s p a f mode s' fd :
+  k_open s p a f mode = (s', RFd fd) ->
+  k_open_inner s p a f mode = (s', RFd fd) /\ can_alloc s 0 = true.
+Proof.
+  unfold k_open. destruct (can_alloc s 0); auto.
+  destruct (snd (k_open_inner s p a f mode)); discriminate.
+Qed.
+
+(* no descriptor available: EMFILE, and nothing is created or truncated *)
+Lemma open_emfile_no_effect_l s p a f mode s' fd :
+  can_alloc s 0 = false ->
+  k_open_inner s p a f mode = (s', RFd fd) ->
+  k_open s p a f mode = (s, RErr EMFILE).
+Proof. intros Hc Hi. unfold k_open. rewrite Hc, Hi. reflexivity. Qed.
 
 Lemma open_existing_trunc s i a f s' fd :
   open_existing s i a f = (s', RFd fd) -> flags_ok a f = true -> f_trunc f = true ->
@@ -602,7 +763,7 @@ Qed.
 
 (* every successful open answers one of three ways; used by the flag laws *)
 Lemma k_open_cases s p a f mode s' fd :
-  k_open s p a f mode = (s', RFd fd) ->
+  k_open_inner s p a f mode = (s', RFd fd) ->
   flags_ok a f = true /\
   ((exists i, open_existing s i a f = (s', RFd fd) /\
               exists st, resolve (k_ino s) (p_cwd (k_cur s)) p = WOk st /\ top st = i) \/
@@ -610,7 +771,7 @@ Lemma k_open_cases s p a f mode s' fd :
     resolve (k_ino s) (p_cwd (k_cur s)) p = WErr ENOENT /\
     k_fstat s' fd = (s', RStat KReg 0 (mask mode (p_umask (k_cur s)))))).
 Proof.
-  unfold k_open. destruct (flags_ok a f) eqn:Hok; [|discriminate].
+  unfold k_open_inner. destruct (flags_ok a f) eqn:Hok; [|discriminate].
   destruct (nonempty p) eqn:Hne; [|discriminate]. cbn [negb orb].
   intros H. split; auto.
   assert (Hwhole : match resolve (k_ino s) (p_cwd (k_cur s)) p with
@@ -642,7 +803,8 @@ Lemma trunc_empties_l s p a f mode s' fd :
   k_open s p a f mode = (s', RFd fd) -> f_trunc f = true ->
   exists perm, k_fstat s' fd = (s', RStat KReg 0 perm).
 Proof.
-  intros H Ht. destruct (k_open_cases _ _ _ _ _ _ _ H) as (Hok & [(i & Hi & _) | (_ & _ & Hf)]).
+  intros H Ht. apply k_open_inner_of in H. destruct H as (H & _).
+  destruct (k_open_cases _ _ _ _ _ _ _ H) as (Hok & [(i & Hi & _) | (_ & _ & Hf)]).
   - eapply open_existing_trunc; eauto.
   - eauto.
 Qed.
@@ -652,7 +814,8 @@ Lemma umask_masks_creation_l s p a f mode s' fd :
   k_open s p a f mode = (s', RFd fd) ->
   k_fstat s' fd = (s', RStat KReg 0 (mask mode (p_umask (k_cur s)))).
 Proof.
-  intros Hst H. destruct (k_open_cases _ _ _ _ _ _ _ H) as (Hok & [(i & _ & st & Hr & _) | (_ & _ & Hf)]).
+  intros Hst H. apply k_open_inner_of in H. destruct H as (H & _).
+  destruct (k_open_cases _ _ _ _ _ _ _ H) as (Hok & [(i & _ & st & Hr & _) | (_ & _ & Hf)]).
   - unfold k_stat in Hst. rewrite Hr in Hst. destruct (nth_error _ _) as [[]|]; discriminate.
   - exact Hf.
 Qed.
@@ -734,11 +897,16 @@ Proof. destruct d; reflexivity. Qed.
 Lemma disp_eqb_eq a b : disp_eqb a b = true -> a = b.
 Proof. destruct a, b; cbn; congruence. Qed.
 
+Lemma cstat_eqb_refl c : cstat_eqb c c = true.
+Proof. destruct c; cbn; auto. apply N.eqb_refl. Qed.
+Lemma cstat_eqb_eq a b : cstat_eqb a b = true -> a = b.
+Proof. destruct a, b; cbn; try discriminate; auto. intros H. apply N.eqb_eq in H. congruence. Qed.
+
 Lemma res_eqb_refl r : res_eqb r r = true.
 Proof.
   destruct r; cbn; auto;
     rewrite ?N.eqb_refl, ?str_eqb_refl, ?kind_eqb_refl, ?errno_eqb_refl, ?access_eqb_refl,
-      ?Bool.eqb_reflx, ?disp_eqb_refl; auto;
+      ?Bool.eqb_reflx, ?disp_eqb_refl, ?cstat_eqb_refl; auto;
     apply list_eqb_refl; apply str_eqb_refl.
 Qed.
 
@@ -818,6 +986,7 @@ Proof.
            | H : errno_eqb _ _ = true |- _ => apply errno_eqb_eq in H
            | H : access_eqb _ _ = true |- _ => apply access_eqb_eq in H
            | H : disp_eqb _ _ = true |- _ => apply disp_eqb_eq in H
+           | H : cstat_eqb _ _ = true |- _ => apply cstat_eqb_eq in H
            | H : Bool.eqb _ _ = true |- _ => apply Bool.eqb_prop in H
            end; subst; reflexivity.
 Qed.
